@@ -29,6 +29,9 @@ def _jsonable(v: Any) -> Any:
     return repr(v)
 
 
+SEED = [0]
+
+
 class Z3Meter:
     def __init__(self) -> None:
         self.calls = 0
@@ -68,6 +71,7 @@ def analyze(h, tier: str, shard: Dict[str, Any], mode: str, exclude, region, tim
 
     api.CURRENT.clear()
     api.CURRENT.update(B)
+    api.CURRENT["SEED"] = SEED[0]
     full_sig = resolve_signature(fn)
     if isinstance(full_sig, str):
         raise RuntimeError(f"cannot resolve signature of {h.name}: {full_sig}")
@@ -158,6 +162,7 @@ def main() -> None:
 
         h = REGISTRY[job["key"]]
         tier, shard, timeout = job["tier"], job["shard"], float(job["timeout"])
+        SEED[0] = int(job.get("seed", 0))
         kind = job["kind"]
         exclude = job.get("exclude", [])
         if kind == "main":
